@@ -210,7 +210,15 @@ fn fam_lzma2(ctx: &CaseCtx, cov: &mut Cov) -> CaseOut {
     let mut out = CaseOut::default();
     let mut rng = ctx.rng();
     let nchunks = rng.range(1, 5) as usize;
-    let chunks = gen_chunks(&mut rng, &L2Params::standard(nchunks, 120));
+    let mut l2p = L2Params::standard(nchunks, 120);
+    l2p.extremes = rng.chance(1, 12);
+    // sometimes: no chunk at all (the stream is just its end byte), or a last
+    // chunk that is uncompressed
+    let mut chunks = if rng.chance(1, 25) { vec![] } else { gen_chunks(&mut rng, &l2p) };
+    if !chunks.is_empty() && rng.chance(1, 6) {
+        let n = *rng.pick(&[1usize, 2, 255, 256, 4096, 65535, 65536]);
+        chunks.push(crate::refmodel::lzma2::Chunk::Raw { reset_dict: rng.chance(1, 3), data: rng.bytes(n) });
+    }
     let w = match lzma2::write(&chunks) {
         Ok(w) => w,
         Err(e) => {
